@@ -288,8 +288,11 @@ ssize_t write(int fd, const void *b, size_t n)
         }
         snip[m] = 0;
         struct op o = begin("stdio", fd == 1 ? "<stdout>" : "<stderr>", snip, fd, (long)n, 0, &ie, &sw);
-        long r = raw_write(fd, b, n);
-        int e = errno;
+        long r; int e;
+        /* an injected errno on a log line (EPIPE: the reader of `breadlog | head` has gone away) makes println! panic:
+         * an abnormal end that unwinds (destructors run), unlike a kill */
+        if (ie) { r = -1; e = ie; }
+        else { r = raw_write(fd, b, n); e = errno; }
         end(o, r, e);
         errno = e;
         return r;
